@@ -5,6 +5,7 @@ import Driver.Tower
 import Driver.Router
 import Driver.Codegen
 import Driver.Timeout
+import Driver.Manager
 open Anemo Anemo.Driver
 
 /-- state carried across lines by the stateful models -/
@@ -12,6 +13,7 @@ structure DState where
   peers : PeersState := {}
   tower : TowerState := {}
   router : RouterState := {}
+  manager : ManagerState := {}
 
 def step (st : DState) (line : String) : DState × String :=
   let toks := (line.trimAscii.toString.splitOn " ").filter (· ≠ "")
@@ -27,6 +29,9 @@ def step (st : DState) (line : String) : DState × String :=
     else if cmd.startsWith "auth." || cmd.startsWith "inflight." || cmd.startsWith "gcra." then
       let (ts, o) := towerOp st.tower cmd args
       ({ st with tower := ts }, o)
+    else if cmd.startsWith "listener." || cmd.startsWith "tick." then
+      let (ms, o) := managerOp st.manager cmd args
+      ({ st with manager := ms }, o)
     else if cmd.startsWith "timeout." then (st, timeoutOp cmd args)
     else if cmd.startsWith "codegen." then (st, codegenOp cmd args)
     else if cmd.startsWith "router." then
